@@ -499,6 +499,9 @@ func (g *Gen) RacSearch(repo, verif, unit string, o *Obligation, sv *Solver, tie
 		rr.Note = "lemma: nothing to execute"
 		return rr
 	}
+	if i := strings.Index(unit, ":"); i > 0 {
+		return g.racGroup(repo, verif, unit[:i], unit[i+1:], tier)
+	}
 	fn := g.FindFunc(unit)
 	if fn == nil {
 		rr.Note = "function not found"
@@ -774,4 +777,92 @@ func (g *Gen) racSource(fn *ssa.Function, spec *FuncSpec, testName, tier string)
 	}
 	fmt.Fprintf(&sb, "\nfunc %s(t *testing.T) {\n\tcases := 0\n\tdefer func() { fmt.Printf(\"RAC-CASES %%d\\n\", cases) }()\n%s}\n", testName, body.String())
 	return sb.String(), strings.Join(bounds, "; "), nil
+}
+
+// racGroup runs a hand-written group harness /verif/rac/custom/<pkg>_<group>.go.txt
+// inside package <pkg> (bounded stand-ins that span several functions).
+func (g *Gen) racGroup(repo, verif, pkgName, group, tier string) *RacResult {
+	rr := &RacResult{}
+	custom := filepath.Join(verif, "rac", "custom", sanitize(pkgName)+"_"+group+".go.txt")
+	data, err := os.ReadFile(custom)
+	if err != nil {
+		rr.Note = "no group harness " + custom
+		return rr
+	}
+	relDir := pkgName
+	for path := range g.pkgs {
+		rel := strings.TrimPrefix(strings.TrimPrefix(path, modPath), "/")
+		if rel == pkgName || strings.HasSuffix(path, "/"+pkgName) {
+			relDir = rel
+		}
+	}
+	src := string(data)
+	rr.Bound = "custom harness " + custom
+	if i := strings.Index(src, "// BOUND:"); i >= 0 {
+		line := src[i+len("// BOUND:"):]
+		if j := strings.Index(line, "\n"); j >= 0 {
+			line = line[:j]
+		}
+		rr.Bound = strings.TrimSpace(line)
+	}
+	testName := "TestRAC_" + sanitize(pkgName+"_"+group)
+	src = strings.ReplaceAll(src, "RAC_TIER", tier)
+	src = strings.ReplaceAll(src, "TestRAC_CUSTOM", testName)
+	outDir := filepath.Join(verif, "replay", "rac", sanitize(pkgName+"_"+group))
+	os.MkdirAll(outDir, 0o755)
+	testFile := filepath.Join(outDir, "zz_rac_test.go")
+	os.WriteFile(testFile, []byte(src), 0o644)
+	target := filepath.Join(repo, relDir, "zz_rac_verif_test.go")
+	ovData, _ := json.Marshal(map[string]map[string]string{"Replace": {target: testFile}})
+	ovFile := filepath.Join(outDir, "overlay.json")
+	os.WriteFile(ovFile, ovData, 0o644)
+	timeout := "300s"
+	if tier == "thorough" {
+		timeout = "1200s"
+	}
+	args := []string{"test", "-v", "-overlay", ovFile, "-vet=off", "-count=1", "-timeout", timeout, "-run", "^" + testName + "$", "./" + relDir}
+	rr.Cmd = "cd " + repo + " && GOFLAGS=-mod=mod GOPROXY=off go " + strings.Join(args, " ")
+	ctx, cancel := context.WithTimeout(context.Background(), 25*time.Minute)
+	defer cancel()
+	cmd := exec.CommandContext(ctx, "go", args...)
+	cmd.Dir = repo
+	cmd.Env = append(os.Environ(), "GOFLAGS=-mod=mod", "GOPROXY=off", "GOSUMDB=off", "GOTOOLCHAIN=local")
+	var out bytes.Buffer
+	cmd.Stdout = &out
+	cmd.Stderr = &out
+	cmd.Run()
+	text := out.String()
+	os.WriteFile(filepath.Join(outDir, "output.txt"), []byte(text), 0o644)
+	for _, line := range strings.Split(text, "\n") {
+		line = strings.TrimSpace(line)
+		if i := strings.Index(line, "RAC-CASES "); i >= 0 {
+			fmt.Sscanf(line[i:], "RAC-CASES %d", &rr.Cases)
+			rr.Ran = true
+		}
+		if i := strings.Index(line, "RAC-FAIL "); i >= 0 && rr.Input == "" {
+			rest := line[i+len("RAC-FAIL "):]
+			if j := strings.Index(rest, " input="); j >= 0 {
+				rr.Clause = strings.TrimPrefix(rest[:j], "clause=")
+				rr.Input = rest[j+len(" input="):]
+			} else {
+				rr.Clause = rest
+				rr.Input = "(see output)"
+			}
+			rr.Ran = true
+		}
+	}
+	if !rr.Ran {
+		if strings.Contains(text, "panic: test timed out") {
+			rr.Ran = true
+			rr.Input = "(some enumerated input makes the code run for more than " + timeout + ": see " + filepath.Join(outDir, "output.txt") + ")"
+			rr.Clause = "termination"
+		} else {
+			tail := text
+			if len(tail) > 600 {
+				tail = tail[len(tail)-600:]
+			}
+			rr.Note = "harness did not run: " + tail
+		}
+	}
+	return rr
 }
